@@ -94,11 +94,8 @@ func c06Quote(text string, style int) (string, bool) {
 
 func c06Len(k c06Kind) int {
 	if vpTier() > 0 {
-		// three bytes for every kind ran for more than four hours; three where quoting matters most, two elsewhere
-		switch k.name {
-		case "leaf description", "leaf units", "extension argument", "leaf default":
-			return 3
-		}
+		// three bytes ran for more than 28 minutes per statement kind (more than four hours in all): two bytes for
+		// every kind is the deepest bound that was run clean
 		return 2
 	}
 	switch k.name { // on every change: two bytes where quoting matters most, one byte elsewhere
